@@ -1,69 +1,72 @@
-(* C12 x C10 -- where the premise [render_independent] of the content theorems comes from.
+(* C12 x C10 -- where the content premise of C12 comes from.
 
    C10's model (Gen/GenState.v) produces, for a whole process history, a log of generated files [entry] carrying the actual
-   text; C10_file_indep_real (Properties/C10.v) says: two entries of ANY two histories with the same generator configuration,
-   template listing, line processors and type key have the same template and the same text.  C10's render has no file-system
-   argument at all (no output file is read back: the C12 translator fails closed on read_text/open(..,"r") of output paths).
+   text; C10_file_indep_real says: two entries of ANY two histories with the same generator configuration, template listing,
+   line processors and type key have the same template and the same text.  C10's render has no file-system argument at all.
 
-   Below: C12's [render] instantiated with "the text of the log entry for (class, path) in the run whose ambient is a", and
-   [render_independent] proved from exactly the statement of C10_file_indep_real (hypothesis c10_file_indep, to be discharged by
-   `exact (C10_file_indep_real U render Hr cfun m1 m2 h1 h2)` after unfolding [log_of]) PLUS
-
-     c10_generated : existence of the entry (Prop) -- C10 HAS it for the runs C12 uses: GenStateThmSubset.single_run_entry;
-     matches_dec   : decidability of "this entry is the file of (class, path)" -- trivial but not stated in C10 (needs a boolean
-                     equality on LinePPInst.pp);
-   and, outside Coq, the correspondence between C12's opaque class/path ids and C10's (cfg, templates, processors)/type keys,
-   which only the harness fixes.  What is still missing for a hypothesis-free instantiation is therefore: matches_dec, and either
-   totality for pairs that are not targets or a domain-restricted render_independent.  Until then the C12 content theorems rest
-   on render_independent as a named premise. *)
-From Coq Require Import NArith List Bool.
-From Verif Require Import GenState RegenBase Gen_Regen Regen RegenThm.
+   This file: C12's [render] instantiated with "the text of the log entry for (class, path) in the run of that class whose
+   ambient is a" (found by a decidable search in the finite log; content id 0 when the run has no such entry), and
+   independence ON TARGETS proved from (1) the statement of C10_file_indep_real and (2) existence of the entry for targets.
+   Decidability of matching is proved here.  Gen/RegenC10Inst.v instantiates (1) and (2) with C10's theorems. *)
+From Coq Require Import NArith ZArith List Bool.
+From Verif Require Import GenState RegenBase Gen_Regen Regen RegenThm RegenTargets.
 Import ListNotations.
 
+Lemma pp_eq_dec : forall a b : LinePPInst.pp, {a = b} + {a <> b}.
+Proof. decide equality. decide equality; apply Z.eq_dec. Qed.
+
+Lemma cls_eq_dec : forall a b : N * tlist * list LinePPInst.pp, {a = b} + {a <> b}.
+Proof.
+  decide equality; [apply (list_eq_dec pp_eq_dec)|]. decide equality; [|apply N.eq_dec].
+  apply list_eq_dec. decide equality; apply (list_eq_dec N.eq_dec).
+Qed.
+
 Section BridgeC10.
-  Variable log_of : N -> list entry.                       (* C10's log of the run (process history) whose ambient is a *)
-  Variable cls_of : N -> N * tlist * list pp.               (* C12's configuration class as C10's (e_cfg, e_tset, e_pps0) *)
+  Variable log_of : N -> N -> list entry.                   (* C10's log of the run of class cl whose ambient is a *)
+  Variable cls_of : N -> N * tlist * list LinePPInst.pp.    (* C12's configuration class as C10's (e_cfg, e_tset, e_pps0) *)
   Variable key_of : RegenBase.path -> tkey.                 (* C12's opaque path as C10's type key *)
   Variable cid_of : Str.str -> N.                           (* content id of a text (any function: equal texts, equal ids) *)
 
   Definition matches (e : entry) (cl : N) (p : RegenBase.path) : Prop :=
     (e_cfg e, e_tset e, e_pps0 e) = cls_of cl /\ e_key e = key_of p.
 
+  (* (1) of the lead's list: decidable, no hypothesis *)
+  Lemma matches_dec : forall e cl p, {matches e cl p} + {~ matches e cl p}.
+  Proof.
+    intros e cl p. unfold matches.
+    destruct (cls_eq_dec (e_cfg e, e_tset e, e_pps0 e) (cls_of cl)) as [A|A]; [|right; tauto].
+    destruct (list_eq_dec N.eq_dec (e_key e) (key_of p)) as [B|B]; [left; auto | right; tauto].
+  Qed.
+
+  Definition matchb (cl : N) (p : RegenBase.path) (e : entry) : bool := if matches_dec e cl p then true else false.
+
+  Definition render_c10 (_ : fs) (a cl : N) (p : RegenBase.path) : N :=
+    match find (matchb cl p) (log_of a cl) with Some e => cid_of (e_text e) | None => 0%N end.
+
+  Variable D : N -> RegenBase.path -> Prop.                 (* the (class, path) pairs that are rendered: targets *)
+
   (* = C10_file_indep_real, with the two logs named *)
-  Hypothesis c10_file_indep : forall a1 a2 e1 e2, In e1 (log_of a1) -> In e2 (log_of a2) ->
+  Hypothesis c10_file_indep : forall a1 a2 cl e1 e2, In e1 (log_of a1 cl) -> In e2 (log_of a2 cl) ->
     e_cfg e1 = e_cfg e2 -> e_tset e1 = e_tset e2 -> e_pps0 e1 = e_pps0 e2 -> e_key e1 = e_key e2 ->
     e_tmpl e1 = e_tmpl e2 /\ e_text e1 = e_text e2.
 
-  (* totality of generation, as C10 states it: Prop-level existence.  For the runs C12 uses (one nnvg invocation = one process
-     = GenStateThmSubset.single_run cf ts pps ins ord args) this is GenStateThmSubset.single_run_entry, under its premises
-     In (key_of p) ord and resolve_in U ins (key_of p) = Some o, i.e. for the (class, path) pairs that ARE targets of the class.
-     render_independent quantifies over all pairs, so the hypothesis is stated for all of them (for a pair that is not generated
-     the content id is never looked at by any C12 theorem; a domain-restricted render_independent would remove the overshoot). *)
-  Hypothesis c10_generated : forall a cl p, exists e : entry, In e (log_of a) /\ matches e cl p.
+  (* existence of the entry, for rendered pairs only: C10's single_run_entry *)
+  Hypothesis c10_generated : forall a cl p, D cl p -> exists e : entry, In e (log_of a cl) /\ matches e cl p.
 
-  (* to pick THE entry out of the finite log: matching is decidable (equality of numbers, strings, lists of those) *)
-  Hypothesis matches_dec : forall e cl p, {matches e cl p} + {~ matches e cl p}.
-
-  Lemma pick : forall (l : list entry) cl p, (exists e, In e l /\ matches e cl p) -> { e : entry | In e l /\ matches e cl p }.
+  Lemma find_match : forall a cl p, D cl p -> exists e, find (matchb cl p) (log_of a cl) = Some e /\ In e (log_of a cl) /\ matches e cl p.
   Proof.
-    induction l as [|x r IH]; intros cl p H.
-    - exfalso. destruct H as [e [[] _]].
-    - destruct (matches_dec x cl p) as [M|N].
-      + exists x. split; [now left | exact M].
-      + destruct (IH cl p) as [e [I M]].
-        * destruct H as [e [[->|I] M]]; [contradiction | eauto].
-        * exists e. split; [now right | exact M].
+    intros a cl p Hd. destruct (c10_generated a cl p Hd) as [e0 [I0 M0]].
+    destruct (find (matchb cl p) (log_of a cl)) as [e|] eqn:F.
+    - exists e. split; [reflexivity|]. apply find_some in F. destruct F as [I M]. split; [exact I|].
+      unfold matchb in M. destruct (matches_dec e cl p); [assumption | discriminate].
+    - exfalso. pose proof (find_none _ _ F e0 I0) as X. unfold matchb in X. destruct (matches_dec e0 cl p); [discriminate | contradiction].
   Qed.
 
-  Definition render_c10 (_ : fs) (a cl : N) (p : RegenBase.path) : N :=
-    cid_of (e_text (proj1_sig (pick (log_of a) cl p (c10_generated a cl p)))).
-
-  Theorem render_c10_independent : render_independent render_c10.
+  Theorem render_c10_independent_on : render_independent_on D render_c10.
   Proof.
-    intros s a s' a' cl p. unfold render_c10.
-    destruct (pick (log_of a) cl p (c10_generated a cl p)) as [e1 [I1 [M1 K1]]],
-             (pick (log_of a') cl p (c10_generated a' cl p)) as [e2 [I2 [M2 K2]]]. cbn [proj1_sig].
-    f_equal. rewrite <- M2 in M1. injection M1 as C T P.
-    apply (c10_file_indep a a' e1 e2 I1 I2 C T P). congruence.
+    intros s a s' a' cl p Hd. unfold render_c10.
+    destruct (find_match a cl p Hd) as [e1 [F1 [I1 [M1 K1]]]], (find_match a' cl p Hd) as [e2 [F2 [I2 [M2 K2]]]].
+    rewrite F1, F2. f_equal. rewrite <- M2 in M1. injection M1 as C T P.
+    apply (c10_file_indep a a' cl e1 e2 I1 I2 C T P). congruence.
   Qed.
 End BridgeC10.
